@@ -428,6 +428,13 @@ fn fam_div<const N: usize>(ctx: &Ctx) {
                 let (a_, b_) = DivRemLimb::div_rem_limb_with_reciprocal(&ua, &rec);
                 Out::v2(&w(&a_), b_.0)
             });
+            // a reciprocal that went through constant-time selection (CtOption::map / conditional_select) divides alike
+            chk!(cs, "Uint::div_rem_limb_with_reciprocal(selected reciprocal)", &qr, {
+                use crypto_bigint::subtle::{Choice, ConditionallySelectable};
+                let sel = Reciprocal::conditional_select(&Reciprocal::default(), &rec, Choice::from(1));
+                let (a_, b_) = ua.div_rem_limb_with_reciprocal(&sel);
+                Out::v2(&w(&a_), b_.0)
+            });
             cs.group();
             let er = Out::Val(vec![r]);
             chk!(cs, "Uint::rem_limb", &er, Out::Val(vec![ua.rem_limb(nzl).0]));
